@@ -114,7 +114,7 @@ static bool eqVariant(const Variant& v, const Val& m) {
   case Val::STR: return v.getType() == Variant::stringType && eqStr(v.toString(), m.s);
   case Val::LIST: { if (v.getType() != Variant::listType) return false; const List<Variant>& l = v.toList(); if (l.size() != m.kids.size()) return false; size_t n = 0; for (List<Variant>::Iterator i = l.begin(), e = l.end(); i != e; ++i, ++n) if (!eqVariant(*i, m.kids[n].second)) return false; return true; }
   case Val::ARR: { if (v.getType() != Variant::arrayType) return false; const Array<Variant>& a = v.toArray(); if (a.size() != m.kids.size()) return false; for (size_t n = 0; n < m.kids.size(); ++n) if (!eqVariant(a[n], m.kids[n].second)) return false; return true; }
-  case Val::MAP: { if (v.getType() != Variant::mapType) return false; const HashMap<String, Variant>& h = v.toMap(); if (h.size() != m.kids.size()) return false; size_t n = 0; for (HashMap<String, Variant>::Iterator i = h.begin(), e = h.end(); i != e; ++i, ++n) if (!eqStr(i.key(), m.kids[n].first) || !eqVariant(*i, m.kids[n].second)) return false; return true; }
+  case Val::MAP: { if (v.getType() != Variant::mapType) return false; const HashMap<String, Variant>& h = v.toMap(); if (h.size() != m.kids.size()) return false; size_t n = 0; for (HashMap<String, Variant>::Iterator i = h.begin(), e = h.end(); i != e; ++i, ++n) { if (!eqStr(i.key(), m.kids[n].first) || !eqVariant(*i, m.kids[n].second)) return false; HashMap<String, Variant>::Iterator f = h.find(i.key()); if (f == h.end() || &*f != &*i) return false; /* readers also look entries up by key: a read-only lookup through one handle, possibly at the same time as lookups through other handles of the payload */ } return true; }
   default: return false;
   }
 }
